@@ -12,8 +12,8 @@
    offsets, tree reduction by _combine_fornav, _average_fornav).  Theorems with [RO] are over the reals: float32
    accumulation (accum_type / weight_type = float) is NOT covered by them; the correspondence bounds it. *)
 From Coq Require Import Reals ZArith List Lia Lra Bool QArith.
-From PR Require Import Base.Num Base.RNum Model.Grid Model.EWA Gen.GenC08 Model.C08_run Model.C08_rungen
-     Proofs.Grid_real Proofs.C08_ll2cr Proofs.C08_acc Proofs.C08_dask Proofs.C08_gen Proofs.C08_hist.
+From PR Require Import Base.Num Base.RNum Base.Imp Model.Grid Model.EWA Gen.GenC08 Gen.GenC08imp Model.C08_run Model.C08_rungen
+     Proofs.Grid_real Proofs.C08_ll2cr Proofs.C08_acc Proofs.C08_dask Proofs.C08_gen Proofs.C08_hist Proofs.C08_imp.
 Import ListNotations.
 Open Scope R_scope.
 
@@ -280,6 +280,20 @@ Theorem C08_explicit_rows_per_scan_wins : forall (k : Z) (attr : option Z) (nrow
   get_rows_per_scan None None nrows = None.
 Proof. intros. repeat split. destruct attr; reflexivity. Qed.
 Print Assumptions C08_explicit_rows_per_scan_wins.
+(* code is model: [imp_get_rows_per_scan] is DaskEWAResampler._get_rows_per_scan translated by tools/py2coq_imp.py from the
+   current source (xr / da: xarray importable, lons is a DataArray; attr = lons.attrs.get('rows_per_scan')); it returns
+   exactly what [get_rows_per_scan] says and raises exactly where that is None.  Hence an explicit keyword wins in the
+   generated method too. *)
+Theorem C08_get_rows_per_scan_code_is_model : forall kw xr da attr nrows,
+  value_of (imp_get_rows_per_scan kw xr da attr nrows) =
+  match get_rows_per_scan kw (if xr && da then attr else None) nrows with Some v => COk v | None => CRaised end.
+Proof. exact get_rows_per_scan_code_is_model. Qed.
+Print Assumptions C08_get_rows_per_scan_code_is_model.
+Theorem C08_generated_explicit_rows_per_scan_wins : forall k xr da attr nrows,
+  value_of (imp_get_rows_per_scan (Some k) xr da attr nrows) = COk (if (k =? 0)%Z then nrows else k).
+Proof. intros. rewrite get_rows_per_scan_code_is_model. reflexivity. Qed.
+Print Assumptions C08_generated_explicit_rows_per_scan_wins.
+
 Example C08_ex_rows_per_scan : get_rows_per_scan (Some 4%Z) (Some 2%Z) 8%Z = Some 4%Z /\ get_rows_per_scan (Some 0%Z) (Some 2%Z) 8%Z = Some 8%Z.
 Proof. split; reflexivity. Qed.
 
